@@ -21,7 +21,8 @@ pub enum Step {
 pub struct Case {
     pub phase_ms: u64,
     pub nres: usize,
-    /// 0 none, 1 flow reject, 2 isolation, 3 hotspot concurrency, 4 breaker (error count), 5 system concurrency
+    /// 0 none, 1 flow reject, 2 isolation, 3 hotspot concurrency, 4 breaker (error count), 5 system concurrency,
+    /// 6 flow throttling (entries are queued: build() sleeps), 7 hotspot QPS throttling, 8 hotspot QPS reject, 9 flow warm-up
     pub blocker: u8,
     pub blocker_threshold: u32,
     pub steps: Vec<Step>,
@@ -30,7 +31,7 @@ pub struct Case {
 pub fn decode(u: &mut Bytes) -> Case {
     let phase_ms = [0u64, 250, 499, 500, 999, 1][u.choice(6)];
     let nres = 2 + u.choice(2);
-    let blocker = u.choice(6) as u8;
+    let blocker = u.choice(10) as u8;
     let blocker_threshold = 1 + u.choice(3) as u32;
     let n = 4 + u.choice(57);
     let mut steps = Vec::new();
@@ -76,7 +77,7 @@ impl Property for C04 {
         }
     }
     fn rule(&self) -> String {
-        "bytes -> 2-3 resources, optional blocking rule of one family (flow reject, isolation, hotspot concurrency, error-count breaker, system concurrency) on resource 0 / globally, 4-60 steps build(dt, resource, inbound|outbound, batch 1..5) / exit(dt, any open entry, with or without error); decisions are taken as observed, the accounting is compared after every step with an InFlight+event-list model on every resource node and on the global inbound node (current_concurrency, 10 s window Pass/Block/Complete/Error/Rt sums, default-window sums/qps/avg_rt/min_rt); non-trivial = >=1 blocked build, >=2 entries open at once on one resource, >=1 exit in a later bucket than its build, both traffic types present; distinct = distinct decoded cases".into()
+        "bytes -> 2-3 resources, optional rule of one family (flow reject, isolation, hotspot concurrency, error-count breaker, system concurrency, flow throttling and hotspot QPS throttling that queue some entries, hotspot QPS reject, flow warm-up) on resource 0 / globally, 4-60 steps build(dt, resource, inbound|outbound, batch 1..5) / exit(dt, any open entry, with or without error); decisions are taken as observed, the accounting is compared after every step with an InFlight+event-list model on every resource node and on the global inbound node (current_concurrency, 10 s window Pass/Block/Complete/Error/Rt sums, default-window sums/qps/avg_rt/min_rt); non-trivial = >=1 blocked build, >=2 entries open at once on one resource, >=1 exit in a later bucket than its build, both traffic types present; distinct = distinct decoded cases".into()
     }
     fn assumptions(&self) -> Vec<String> {
         vec![
@@ -146,6 +147,48 @@ pub fn run_case(case: &Case, cfg: &RunCfg) -> Verdict {
                 ..Default::default()
             })]);
         }
+        6 => {
+            flow::load_rules(vec![Arc::new(flow::Rule {
+                resource: names[0].clone(),
+                threshold: (2 * thr) as f64,
+                control_strategy: flow::ControlStrategy::Throttling,
+                max_queueing_time_ms: 300,
+                ..Default::default()
+            })]);
+        }
+        7 => {
+            hotspot::load_rules(vec![Arc::new(hotspot::Rule {
+                resource: names[0].clone(),
+                metric_type: hotspot::MetricType::QPS,
+                control_strategy: hotspot::ControlStrategy::Throttling,
+                param_index: 0,
+                threshold: (2 * thr) as u64,
+                max_queueing_time_ms: 300,
+                duration_in_sec: 1,
+                ..Default::default()
+            })]);
+        }
+        8 => {
+            hotspot::load_rules(vec![Arc::new(hotspot::Rule {
+                resource: names[0].clone(),
+                metric_type: hotspot::MetricType::QPS,
+                control_strategy: hotspot::ControlStrategy::Reject,
+                param_index: 0,
+                threshold: thr as u64,
+                duration_in_sec: 1,
+                ..Default::default()
+            })]);
+        }
+        9 => {
+            flow::load_rules(vec![Arc::new(flow::Rule {
+                resource: names[0].clone(),
+                threshold: 10.0,
+                calculate_strategy: flow::CalculateStrategy::WarmUp,
+                warm_up_period_sec: 1,
+                warm_up_cold_factor: 3,
+                ..Default::default()
+            })]);
+        }
         5 => {
             system::load_rules(vec![Arc::new(system::Rule {
                 metric_type: system::MetricType::Concurrency,
@@ -161,25 +204,33 @@ pub fn run_case(case: &Case, cfg: &RunCfg) -> Verdict {
     let mut open = OpenEntries::new();
     let mut recs: Vec<OpenRec> = Vec::new();
     let (mut blocked, mut max_open_one, mut late_exit) = (0u64, 0i64, 0u64);
+    let mut queued = 0u64;
     let (mut saw_in, mut saw_out) = (false, false);
 
     for (si, step) in case.steps.iter().enumerate() {
         match step {
             Step::Build { dt, res, inbound: inb, batch } => {
                 clock::advance_ms(*dt);
-                let t = clock::now_ms();
+                let t_start = clock::now_ms();
                 if *inb { saw_in = true } else { saw_out = true }
                 let mut req = Req::new(&names[*res], *batch);
                 req.inbound = *inb;
                 req.args = Some(vec!["v".to_string()]);
-                match build(req) {
+                let built = build(req);
+                // a throttling rule holds the caller (virtual sleep): the pass is recorded when the
+                // entry is returned, the response time counts from the moment it was requested
+                let t = clock::now_ms();
+                if t > t_start {
+                    queued += 1;
+                }
+                match built {
                     Ok(e) => {
                         models[*res].pass(t, *batch as u64);
                         if *inb {
                             inb_model.pass(t, *batch as u64);
                         }
                         let idx = open.push(e);
-                        recs.push(OpenRec { res: *res, inbound: *inb, batch: *batch, t_build: t, idx });
+                        recs.push(OpenRec { res: *res, inbound: *inb, batch: *batch, t_build: t_start, idx });
                         max_open_one = max_open_one.max(models[*res].open);
                     }
                     Err(_) => {
@@ -240,7 +291,8 @@ pub fn run_case(case: &Case, cfg: &RunCfg) -> Verdict {
         fail!(ID, "inbound-not-released", "inbound-not-released", case, "inbound in-flight {} after all entries exited", inbound.current_concurrency());
     }
     let mut classes = Vec::new();
-    classes.push(["no-blocker", "flow-blocker", "isolation-blocker", "hotspot-blocker", "breaker-blocker", "system-blocker"][case.blocker as usize]);
+    classes.push(["no-blocker", "flow-blocker", "isolation-blocker", "hotspot-blocker", "breaker-blocker", "system-blocker", "flow-throttling", "hotspot-throttling", "hotspot-qps-reject", "flow-warm-up"][case.blocker as usize]);
+    if queued > 0 { classes.push("queued-admission"); }
     if blocked > 0 { classes.push("has-blocked-build"); }
     if max_open_one >= 2 { classes.push("two-open-on-one-resource"); }
     if late_exit > 0 { classes.push("exit-in-later-bucket"); }
